@@ -68,7 +68,7 @@ func newKWCore[F algebra.PrimeFieldElement[F]](x *engine.X, c fctx[F], pc pcase)
 			return nil, false
 		}
 		if mustRefuse {
-			x.Failf("refusal/hierarchical-field-size", "%s: InducedMSP accepted a hierarchical policy that violates Tassa's condition", key)
+			x.Failf(fieldSizeKey(ids), "%s: InducedMSP accepted a hierarchical policy that violates Tassa's condition (largest identifier %d, largest threshold %d)", key, slices.Max(ids), p.MaxThreshold())
 			return nil, false
 		}
 	} else if err != nil {
@@ -141,7 +141,7 @@ func kwAdapter[F algebra.PrimeFieldElement[F]](x *engine.X, c fctx[F], pc pcase,
 		return nil, false
 	}
 	D := core.view.M.C
-	if pc.e.Refusal == catalog.OneColumn {
+	if D == 1 {
 		x.Case(fl.name + "/" + key + "/one-column")
 		_, _, err := fl.deal(kw.NewSecret(c.el(big.NewInt(7))), c.reader("onecol"))
 		if err == nil {
@@ -182,6 +182,7 @@ func kwAdapter[F algebra.PrimeFieldElement[F]](x *engine.X, c fctx[F], pc pcase,
 		scheme:                     fl.name,
 		freeRand:                   D - 1,
 		refusesUnqualifiedAdditive: true,
+		mspBased:                   true,
 		missingShareKey:            fl.name + "/party-without-share/" + pc.e.P.Kind.String(),
 	}
 	ad.deal = func(x *engine.X, secret *big.Int, rnd []*big.Int, label string) (*dealing[*kw.Share[F]], bool) {
@@ -349,7 +350,7 @@ func pedersenAdapter(x *engine.X, c fctx[*k256.Scalar], pc pcase) (*adapter[*ped
 		return nil, false
 	}
 	D := core.view.M.C
-	if pc.e.Refusal == catalog.OneColumn {
+	if D == 1 {
 		x.Case("pedersen/" + key + "/one-column")
 		if _, err := s.Deal(kw.NewSecret(c.el(big.NewInt(7))), c.reader("onecol")); err == nil {
 			x.Failf("refusal/one-column", "pedersen/%s: dealing under a policy in which every single shareholder is qualified was not refused", key)
@@ -395,7 +396,7 @@ func pedersenAdapter(x *engine.X, c fctx[*k256.Scalar], pc pcase) (*adapter[*ped
 		}
 		return true
 	}
-	ad := &adapter[S]{scheme: "pedersen", freeRand: D - 1, refusesUnqualifiedAdditive: true, missingShareKey: "pedersen/party-without-share/" + pc.e.P.Kind.String(), flat: flat}
+	ad := &adapter[S]{scheme: "pedersen", freeRand: D - 1, refusesUnqualifiedAdditive: true, mspBased: true, missingShareKey: "pedersen/party-without-share/" + pc.e.P.Kind.String(), flat: flat}
 	ad.deal = func(x *engine.X, secret *big.Int, rnd []*big.Int, label string) (*dealing[S], bool) {
 		do, df, err := s.DealAndRevealDealerFunc(kw.NewSecret(c.el(secret)), c.reader(label, append([]*big.Int{big.NewInt(0)}, rnd...)...))
 		if err != nil {
@@ -630,7 +631,7 @@ func tassaAdapter[F algebra.PrimeFieldElement[F]](x *engine.X, c fctx[F], pc pca
 		return nil, false
 	}
 	if mustRefuse {
-		x.Failf("refusal/hierarchical-field-size", "%s: tassa.NewScheme accepted a hierarchical policy that violates Tassa's condition", key)
+		x.Failf(fieldSizeKey(ids), "%s: tassa.NewScheme accepted a hierarchical policy that violates Tassa's condition (largest identifier %d, largest threshold %d)", key, slices.Max(ids), p.MaxThreshold())
 		return nil, false
 	}
 	k := p.MaxThreshold()
@@ -754,7 +755,7 @@ func isnAdapter[F algebra.PrimeFieldElement[F]](x *engine.X, c fctx[F], pc pcase
 	var s *isn.Scheme[F]
 	s, err = isn.NewFiniteScheme(c.field, ac)
 	mus := p.MaximalUnqualified()
-	if pc.e.Refusal == catalog.OneColumn {
+	if p.AllSingletonsQualified() {
 		// every single party is qualified: there is no non-empty unqualified set, nothing to build the scheme from
 		x.Case("isn/" + key + "/all-singletons")
 		if err == nil {
@@ -765,6 +766,13 @@ func isnAdapter[F algebra.PrimeFieldElement[F]](x *engine.X, c fctx[F], pc pcase
 		return nil, false
 	}
 	if err != nil {
+		if !noSingletonQualified(p) {
+			// the CNF form lives on the union of the maximal unqualified sets; with a shareholder that is qualified
+			// alone that union can have fewer than two members and the constructor refuses
+			x.Observe(key, "refused: CNF universe too small")
+			x.Trivial()
+			return nil, false
+		}
 		x.Failf("scheme/constructor", "%s: isn.NewFiniteScheme failed%s", key, errLine(err))
 		return nil, false
 	}
@@ -1028,45 +1036,91 @@ func additiveAdapter[F algebra.PrimeFieldElement[F]](x *engine.X, c fctx[F], pc 
 
 // ---------------------------------------------------------------------------------------------
 
+// huge: policies whose 2^n x linear-algebra cost forbids the secret x randomness cross product and the extra
+// identifier assignments in the dealing sections (they are still crossed with everything in "policy" and "msp").
+func huge(e catalog.Entry) bool {
+	return (e.P.Kind == policy.CNF && e.P.N >= 6) || (e.P.Kind == policy.BoolExpr && e.P.Tree.Leaves() >= 5)
+}
+
 func dealSections(std []catalog.Entry, kc fctx[*k256.Scalar], ec fctx[*edwardsScalar], bc fctx[*blsScalar]) {
-	noDup := func(e catalog.Entry, a catalog.IDAssignment) bool { return true }
-	ordOnly := func(e catalog.Entry, a catalog.IDAssignment) bool { return a.Name == "ord" }
+	type filter = func(catalog.Entry, catalog.IDAssignment) bool
+	ord := func(a catalog.IDAssignment) bool { return a.Name == "ord" }
+	and := func(fs ...filter) filter {
+		return func(e catalog.Entry, a catalog.IDAssignment) bool {
+			for _, f := range fs {
+				if !f(e, a) {
+					return false
+				}
+			}
+			return true
+		}
+	}
+	hugeOrdOnly := func(e catalog.Entry, a catalog.IDAssignment) bool { return !huge(e) || ord(a) }
+	ordOnly := func(e catalog.Entry, a catalog.IDAssignment) bool { return ord(a) }
+	noHuge := func(e catalog.Entry, a catalog.IDAssignment) bool { return !huge(e) }
 	max64 := func(e catalog.Entry, a catalog.IDAssignment) bool { return a.Max64 }
-	max64ord := func(e catalog.Entry, a catalog.IDAssignment) bool { return a.Name == "ord" }
-	accepted := func(f func(catalog.Entry, catalog.IDAssignment) bool) func(catalog.Entry, catalog.IDAssignment) bool {
-		return func(e catalog.Entry, a catalog.IDAssignment) bool { return e.Refusal == catalog.None && f(e, a) }
+	accepted := func(e catalog.Entry, a catalog.IDAssignment) bool { return e.Refusal == catalog.None }
+	// boolexpr span programmes do not depend on the identifiers: the group-operation heavy VSS sections visit them
+	// on the ord assignment only, and (quick) on trees with <= 3 leaves
+	vssFilter := func(e catalog.Entry, a catalog.IDAssignment) bool {
+		if huge(e) {
+			return false
+		}
+		if e.P.Kind == policy.CNF && e.P.N >= 5 {
+			// thorough lists every labelled n=5 CNF; the VSS sections take one per relabelling orbit
+			return policy.Canonical(e.P.TruthBits(), e.P.N) == e.P.TruthBits()
+		}
+		if e.P.Kind != policy.BoolExpr {
+			return true
+		}
+		return ord(a) && (engine.Thorough() || e.P.Tree.Leaves() <= 3)
+	}
+	if !engine.Thorough() {
+		base := vssFilter
+		vssFilter = func(e catalog.Entry, a catalog.IDAssignment) bool {
+			// quick: the n=5 CNF / hierarchical policies are left to the KW sections (same span programmes)
+			return base(e, a) && !(e.P.N >= 5 && (e.P.Kind == policy.CNF || e.P.Kind == policy.Hierarchical))
+		}
 	}
 	B := func(q, t time.Duration) time.Duration { return engine.Budget(q, t) }
-	full := dealOpts{fullCross: true, linear: true}
-	allSecrets := dealOpts{secrets: []int{0, 1, 2, 3}, linear: true}
-	twoSecrets := dealOpts{secrets: []int{0, 3}, linear: true}
+	full := dealOpts{fullCross: true, linear: true, noCross: huge}
+	allSecrets := dealOpts{secrets: []int{0, 1, 2, 3}, linear: true, noCross: huge}
+	twoSecrets := dealOpts{secrets: []int{0, 3}, linear: true, noCross: huge}
+	midOnly := dealOpts{linear: true}
+	tassaExtra := dealOpts{secrets: []int{0, 3}, linear: true}
+	if engine.Thorough() {
+		tassaExtra = full
+	}
+	extraField := twoSecrets
+	if engine.Thorough() {
+		extraField = allSecrets
+	}
 
 	// KW over the whole catalogue
-	kwAll := buildCases(std, noDup)
+	kwAll := buildCases(std, hugeOrdOnly)
 	engine.Explore(dealBody(kc, "kw", kwAll, func(x *engine.X, pc pcase) (*adapter[*kw.Share[*k256.Scalar]], bool) {
 		return kwAdapter(x, kc, pc, plainKW[*k256.Scalar])
-	}, full), engine.Opts{Name: "deal/kw/k256", Budget: B(4*time.Minute, 30*time.Minute)})
-	kwOrd := buildCases(std, ordOnly)
+	}, full), engine.Opts{Name: "deal/kw/k256", Budget: B(4*time.Minute, 40*time.Minute)})
+	kwOrd := buildCases(std, and(ordOnly, noHuge))
 	engine.Explore(dealBody(ec, "kw", kwOrd, func(x *engine.X, pc pcase) (*adapter[*kw.Share[*edwardsScalar]], bool) {
 		return kwAdapter(x, ec, pc, plainKW[*edwardsScalar])
-	}, allSecrets), engine.Opts{Name: "deal/kw/ed25519", Budget: B(3*time.Minute, 20*time.Minute)})
+	}, extraField), engine.Opts{Name: "deal/kw/ed25519", Budget: B(3*time.Minute, 20*time.Minute)})
 	engine.Explore(dealBody(bc, "kw", kwOrd, func(x *engine.X, pc pcase) (*adapter[*kw.Share[*blsScalar]], bool) {
 		return kwAdapter(x, bc, pc, plainKW[*blsScalar])
-	}, allSecrets), engine.Opts{Name: "deal/kw/bls12381", Budget: B(3*time.Minute, 20*time.Minute)})
+	}, extraField), engine.Opts{Name: "deal/kw/bls12381", Budget: B(3*time.Minute, 20*time.Minute)})
 
 	// Feldman / Pedersen (k256 group)
-	vssCases := kwAll
-	if !engine.Thorough() {
-		vssCases = buildCases(std, func(e catalog.Entry, a catalog.IDAssignment) bool {
-			return e.P.Kind != policy.BoolExpr || a.Name == "ord" // boolexpr matrices do not depend on the identifiers
-		})
-	}
+	vssCases := buildCases(std, vssFilter)
 	engine.Explore(dealBody(kc, "feldman", vssCases, func(x *engine.X, pc pcase) (*adapter[*kw.Share[*k256.Scalar]], bool) {
 		return kwAdapter(x, kc, pc, feldmanK256)
 	}, twoSecrets), engine.Opts{Name: "deal/feldman/k256", Budget: B(4*time.Minute, 30*time.Minute)})
+	pedOpts := midOnly
+	if engine.Thorough() {
+		pedOpts = twoSecrets
+	}
 	engine.Explore(dealBody(kc, "pedersen", vssCases, func(x *engine.X, pc pcase) (*adapter[*pedersen.Share[*k256.Scalar]], bool) {
 		return pedersenAdapter(x, kc, pc)
-	}, twoSecrets), engine.Opts{Name: "deal/pedersen/k256", Budget: B(4*time.Minute, 30*time.Minute)})
+	}, pedOpts), engine.Opts{Name: "deal/pedersen/k256", Budget: B(4*time.Minute, 30*time.Minute)})
 
 	// Shamir: threshold policies, all assignments, all fields, full cross
 	thr := buildCases(kinds(std, policy.Threshold), nil)
@@ -1092,25 +1146,25 @@ func dealSections(std []catalog.Entry, kc fctx[*k256.Scalar], ec fctx[*edwardsSc
 		return additiveAdapter(x, bc, pc)
 	}, full), engine.Opts{Name: "deal/additive/bls12381", Budget: B(time.Minute, 5*time.Minute)})
 
-	// Tassa: hierarchical (layouts in which every single party is qualified are outside: Tassa deals them but its
-	// Reconstruct insists on two shares)
-	hier := buildCases(kinds(std, policy.Hierarchical), accepted(noDup))
+	// Tassa: hierarchical (the single-level threshold-1 layout is outside: Tassa deals it but its Reconstruct insists
+	// on two shares while every single party is qualified)
+	hier := buildCases(kinds(std, policy.Hierarchical), accepted)
 	engine.Explore(dealBody(kc, "tassa", hier, func(x *engine.X, pc pcase) (*adapter[*tassa.Share[*k256.Scalar]], bool) {
 		return tassaAdapter(x, kc, pc)
 	}, full), engine.Opts{Name: "deal/tassa/k256", Budget: B(2*time.Minute, 15*time.Minute)})
 	engine.Explore(dealBody(ec, "tassa", hier, func(x *engine.X, pc pcase) (*adapter[*tassa.Share[*edwardsScalar]], bool) {
 		return tassaAdapter(x, ec, pc)
-	}, full), engine.Opts{Name: "deal/tassa/ed25519", Budget: B(2*time.Minute, 15*time.Minute)})
+	}, tassaExtra), engine.Opts{Name: "deal/tassa/ed25519", Budget: B(2*time.Minute, 15*time.Minute)})
 	engine.Explore(dealBody(bc, "tassa", hier, func(x *engine.X, pc pcase) (*adapter[*tassa.Share[*blsScalar]], bool) {
 		return tassaAdapter(x, bc, pc)
-	}, full), engine.Opts{Name: "deal/tassa/bls12381", Budget: B(2*time.Minute, 15*time.Minute)})
+	}, tassaExtra), engine.Opts{Name: "deal/tassa/bls12381", Budget: B(2*time.Minute, 15*time.Minute)})
 
 	// ISN: every family through its maximal unqualified sets, identifiers <= 64 (bit-set domain)
-	isnAll := buildCases(std, max64)
+	isnAll := buildCases(std, and(max64, hugeOrdOnly))
 	engine.Explore(dealBody(kc, "isn", isnAll, func(x *engine.X, pc pcase) (*adapter[*isn.Share[*k256.Scalar]], bool) {
 		return isnAdapter(x, kc, pc)
 	}, full), engine.Opts{Name: "deal/isn/k256", Budget: B(3*time.Minute, 30*time.Minute)})
-	isnOrd := buildCases(std, max64ord)
+	isnOrd := buildCases(std, and(ordOnly, noHuge))
 	engine.Explore(dealBody(ec, "isn", isnOrd, func(x *engine.X, pc pcase) (*adapter[*isn.Share[*edwardsScalar]], bool) {
 		return isnAdapter(x, ec, pc)
 	}, twoSecrets), engine.Opts{Name: "deal/isn/ed25519", Budget: B(2*time.Minute, 15*time.Minute)})
